@@ -2,7 +2,7 @@ import SakuraVerif.Lemmas.LoopMachine
 import SakuraVerif.Model.ControlFlow
 import SakuraVerif.Model.Expr
 import SakuraVerif.Model.Reserve
-import SakuraVerif.Model.Sutoton
+import SakuraVerif.Lemmas.SutotonTerm
 import SakuraVerif.Gen.Consts
 /-! # C07 — compilation never crashes or hangs (what the model can carry; partial)
 
@@ -42,51 +42,27 @@ theorem C07_while_cutoff {σ} (o : Ctl.Ops σ) (maxLoop f : Nat) (s : σ) (hc : 
     Ctl.execWhile o maxLoop (f + 1) maxLoop s = Ctl.cutOff o (o.body s) := by
   simp [Ctl.execWhile, hc]
 
-/-- sutoton: a vocabulary never contains an empty word (they are rejected when defined) -/
-def NonEmptyNames (items : List Sut.Item) : Prop := ∀ it ∈ items, it.name ≠ []
+/-- sutoton: the built-in vocabulary and every vocabulary reachable by user definitions contains no
+    empty word (they are rejected when defined) -/
+theorem C07_vocabulary_nonempty (rows : List (List Nat × List Nat)) (cs : List Nat) :
+    Sut.NonEmptyNames (Sut.initItems rows) ∧ Sut.NonEmptyNames (Sut.defineWord (Sut.initItems rows) cs).1 :=
+  ⟨Sut.initItems_nonempty rows, Sut.defineWord_nonempty _ _ (Sut.initItems_nonempty rows)⟩
 
-theorem C07_setItem_nonempty (items : List Sut.Item) (name value : List Nat) (h : NonEmptyNames items) :
-    NonEmptyNames (Sut.setItem items name value) := by
-  unfold Sut.setItem
-  split
-  · exact h
-  · rename_i hne
-    have hn : name ≠ [] := by intro h0; simp [h0] at hne
-    split
-    · intro it hit
-      obtain ⟨x, hx, rfl⟩ := List.mem_map.mp hit
-      split
-      · simpa using h x hx
-      · exact h x hx
-    · intro it hit
-      rcases List.mem_append.mp hit with h1 | h1
-      · exact h it h1
-      · simp at h1; subst h1; exact hn
+/-- `sutoton::convert` terminates on every text: each step consumes at least one character, so
+    `length + 1` steps suffice and any further fuel changes nothing — for every vocabulary, including
+    all user definitions made on the way.  (Before empty words were rejected no such bound existed:
+    `~{}={x}` made the loop spin.) -/
+theorem C07_convert_terminates (rows : List (List Nat × List Nat)) (src : List Nat) (extra : Nat) :
+    Sut.convertLoop (src.length + 1 + extra) (Sut.initItems rows) src
+      = Sut.convertLoop (src.length + 1) (Sut.initItems rows) src :=
+  Sut.convert_fuel_sufficient _ (Sut.initItems_nonempty rows) src extra
 
-theorem C07_sort_nonempty (items : List Sut.Item) (h : NonEmptyNames items) : NonEmptyNames (Sut.sortItems items) := by
-  intro it hit
-  exact h it ((List.mergeSort_perm _ _).mem_iff.mp hit)
-
-/-- a match of the vocabulary always consumes at least one character -/
-theorem C07_match_consumes (items : List Sut.Item) (h : NonEmptyNames items) (rest : List Nat) (it : Sut.Item)
-    (hf : Sut.firstMatch items rest = some it) : 1 ≤ it.name.length := by
-  unfold Sut.firstMatch at hf
-  have := List.mem_of_find?_eq_some hf
-  have hne := h it this
-  cases hn : it.name with
-  | nil => exact absurd hn hne
-  | cons _ _ => simp
-
-/-- `get_token_s` always consumes the separator or the whole rest: progress of the string/comment arms -/
-theorem C07_getTokenS_progress (sp : List Nat) : ∀ cs : List Nat, (Sut.getTokenS sp cs).2.length ≤ cs.length := by
-  intro cs
-  induction cs with
-  | nil => simp [Sut.getTokenS]
-  | cons c cs ih =>
-    simp only [Sut.getTokenS]
-    split
-    · simp
-    · simp only [List.length_cons]; omega
+/-- progress of the individual arms: a vocabulary match, a string/comment span and a word definition
+    all leave strictly/weakly shorter text -/
+theorem C07_arms_progress (items : List Sut.Item) (h : Sut.NonEmptyNames items) (c : Nat) (cs : List Nat) (sp : List Nat) (hsp : sp ≠ []) :
+    (Sut.getTokenS sp (c :: cs)).2.length < (c :: cs).length ∧ (Sut.defineWord items cs).2.length ≤ cs.length ∧
+    (∀ it, Sut.firstMatch items (c :: cs) = some it → 1 ≤ it.name.length) :=
+  ⟨Sut.getTokenS_len_lt sp c cs hsp, Sut.defineWord_len items cs, fun it hf => Sut.firstMatch_pos items h _ it hf⟩
 
 /-- the audited list of functions that may call `.unwrap()` / `.expect(` -/
 theorem C07_unwrap_sites :
